@@ -132,6 +132,11 @@ def origin_slots(ctx, ht, rule):
             continue
         if TB.header_buffers(ht.P, s.func).get(s.buf) != 'fresh':
             continue
+        # a store that lies on the irregular branch only (every path to it has `unstructured` true) is not the
+        # regular-window origin: C08.1 checks what it receives
+        paths_ = ht.fm(s.func).paths_at(s.stmt) or []
+        if paths_ and all(('T', 'unstructured') in p_ for p_ in paths_):
+            continue
         res = ht.resolver(s)
         e = s.value
         d = res(U(e)) if isinstance(e, ast.Name) else e
